@@ -110,6 +110,7 @@ class _ConditionalAssignment(object):
         finally:
             # even if the above finalization throws an error we need to
             # reset the state to prevent errors from bleeding over
+            self.defaults = {}  # defaults only apply to the block they were given for
             _reset_conditional_state()  # sets _depth back to 0
 
 
